@@ -1,11 +1,23 @@
--- root of the library: models, specifications, property theorems
+-- root of the library: every property module (and through them the models, specifications and lemmas), so that a plain
+-- `lake build` re-checks all theorems
 import UpfVerif.Basic
-import UpfVerif.Model.Gtpu
-import UpfVerif.Spec.GtpuRef
+import UpfVerif.Props.C01
+import UpfVerif.Props.C02
+import UpfVerif.Props.C03
+import UpfVerif.Props.C04
+import UpfVerif.Props.C05
+import UpfVerif.Props.C06
+import UpfVerif.Props.C07
+import UpfVerif.Props.C08
+import UpfVerif.Props.C09
+import UpfVerif.Props.C10
+import UpfVerif.Props.C11
+import UpfVerif.Props.C12
+import UpfVerif.Props.C13
 import UpfVerif.Props.C14
-import UpfVerif.Gen.Consts
-import UpfVerif.Gen.ConfigTags
-import UpfVerif.Gen.Conc
-import UpfVerif.Model.Flags
-import UpfVerif.Spec.TS29244Bits
+import UpfVerif.Props.C15
+import UpfVerif.Props.C16
+import UpfVerif.Props.C17
+import UpfVerif.Props.C18
 import UpfVerif.Props.C19
+import UpfVerif.Props.C20
